@@ -22,6 +22,10 @@ def proj_all(o):
 def ensure_driver():
     import os, subprocess
     here = observe.HERE
+    from tools import vlib
+    ok, log = vlib.build_target("Model/LRT.vo Model/Peg.vo Model/Entry.vo Proofs/EqDec.v")      # what Extract.v requires
+    if not ok:
+        raise RuntimeError("the model does not build: " + log[-800:])
     r = subprocess.run(["bash", os.path.join(here, "ocaml", "build.sh")], capture_output=True, text=True, timeout=900)
     if r.returncode != 0 or not os.path.exists(observe.DRIVER):
         raise RuntimeError("model driver build failed: " + (r.stdout + r.stderr)[-800:])
@@ -71,6 +75,7 @@ def run_groups(groups, proj=proj_all, stats=None, model=True, skip_spins=True):
                 r["model"] = ("missing",)
             else:
                 r["model"] = observe.outcome_from_model(txt, r["dumper"])
+                r["flags"] = observe.MODEL_FLAGS.get(r["id"])
             r["agree"] = True if r["real"] is None else proj(r["model"]) == proj(r["real"])
     return recs
 
